@@ -40,6 +40,8 @@ type Fault struct {
 	Site      string `json:"site,omitempty"`
 	Nth       int    `json:"nth,omitempty"`
 	AtMs      int    `json:"at_ms,omitempty"`
+	// AfterStart >= 1: fire AfterStart-1 steps after Start() of the service returned (1 = immediately)
+	AfterStart int `json:"after_start,omitempty"`
 	// layout change: slots [From, To] move (with their data) to node To2
 	From int `json:"from,omitempty"`
 	To   int `json:"to,omitempty"`
@@ -97,6 +99,9 @@ type redisWorld struct {
 	crashTimes []time.Time
 
 	endPhase         int
+	drainTask        *simhook.Task
+	drainReturned    bool
+	startedStep      int64
 	probeRound       int
 	probeStart       time.Time
 	probeStartStep   []int64
@@ -108,7 +113,7 @@ type redisWorld struct {
 
 func newRedisWorld(sc *RedisScenario) *redisWorld {
 	return &redisWorld{sc: sc, fired: make([]bool, len(sc.Faults)), siteSeen: map[int]int{}, siteCount: make([]int, len(sc.Faults)),
-		firstSend: -1, faultsFired: map[string]int{}}
+		firstSend: -1, faultsFired: map[string]int{}, startedStep: -1}
 }
 
 func (w *redisWorld) Setup(rt *simhook.Runtime) {
@@ -325,6 +330,11 @@ func (w *redisWorld) fireFaults() {
 				n = 1
 			}
 			due = w.siteCount[i] >= n && w.firstSend >= 0
+		case f.AfterStart > 0:
+			if w.env.Started && w.startedStep < 0 {
+				w.startedStep = w.rt.Step
+			}
+			due = w.startedStep >= 0 && w.rt.Step-w.startedStep >= int64(f.AfterStart-1)
 		case f.AtMs > 0:
 			due = w.firstSend >= 0 && time.Since(w.firstSendAt) >= time.Duration(f.AtMs)*time.Millisecond
 		default:
@@ -492,6 +502,16 @@ func (w *redisWorld) inject(f *Fault) bool {
 		w.stopRequested = true
 		w.env.Stop()
 		return true
+	case "drain":
+		if w.env.Proc == nil || w.drainTask != nil {
+			return false
+		}
+		p := w.env.Proc
+		w.drainTask = w.rt.Go("harness:drain", func() { p.StopListen(); w.drainReturned = true })
+		w.hostTasks = append(w.hostTasks, w.drainTask)
+		return true
+	case "accept-error":
+		return w.env.Net.InjectAcceptError(world.ProxyAddr)
 	}
 	return false
 }
@@ -623,6 +643,9 @@ func (w *redisWorld) anyEarly() bool {
 
 func (w *redisWorld) Deadline() time.Time {
 	if w.firstSend < 0 {
+		if !w.lastFault.IsZero() {
+			return w.lastFault.Add(w.horizon())
+		}
 		// nothing sent yet: the start-up itself must not take forever
 		return time.Time{}
 	}
